@@ -511,6 +511,9 @@ func runC08(c *eng.Ctx) {
 	// a consumed-but-unacknowledged position must stay readable so that a rewind after a fault can re-send it
 	c.Rule("PROV", "pkg/queue.fanOutQueue.Sync{min-over-all-groups}", func() { syncRule(c) })
 
+	// ---- the leader's log of a family is dropped only when EVERY follower's group is drained --------------------------------------
+	c.Rule("GUARD", "replica.partition.IsExpire{every group drained}", func() { expiryNeedsEveryGroupDrained(c) })
+
 	c.Observe("two replication streams into one follower partition could interleave ReplicaLog's check and Put (check-then-act across calls) — outside the per-channel quantifier, not armed")
 	c.Observe("remoteReplicator suspend: GetLiveNode and isSuspend CAS are not atomic with the online notification (possible lost wake-up) — liveness, not armed")
 }
